@@ -29,6 +29,7 @@ EXPLANATION = (
     " Rg1 covers aromatic symbols (only aromatic carbon's hydrogen is implied) and enumerates map numbers by representatives; Rg3 also rejects a removal loop enclosed by a handler that continues; (Rg5) the rows returned by __rebalance_batch come from __run_pipeline, from the cache or from a producer that reaches remove_atom_mapping."
     ' (Rg6) cached rows were computed under the map-removal setting in force (shared with C12-K1); (Rg7) nothing outside the Balancer switches the removal off.'
     ' Rg2 also requires that no rewrite passes a count argument.'
+    ' (Rg8) input_reaction, the text unsolved rows are reset to, is a copy of the reaction column taken right after map removal by a single writer (shared with C02-T2).'
 )
 ASSUMPTIONS = [
     "SMILES implicit-hydrogen rule: smallest allowed valence >= bond order sum (OpenSMILES; RDKit's valence list)",
